@@ -15,6 +15,16 @@ EXPLANATION = (
     "table itself is returned unmodified. Not decided: what pandas does with the selections (trusted contract).")
 
 
+def unread_selection(d, frame):
+    """does the description contain the table subscripted by something the reader did not turn into a selection record?
+    (then the reader knows nothing about the cell: an analysis error, not a verdict)"""
+    if isinstance(d, tuple):
+        if d and d[0] in ("call", "expr", "name") and len(d) > 1 and isinstance(d[1], str) and (frame + "[") in d[1].replace(" ", ""):
+            return True
+        return any(unread_selection(x, frame) for x in d[1:])
+    return False
+
+
 def run(model, rep, tier):
     from ..aggr import Reader as _R
     _R.MODEL = model
@@ -72,9 +82,8 @@ def r_all(model, rep):
                 rep.violation("R0", "system.System.rail_rep", "%s:%d" % (rel, call.lineno),
                               "option '%s' of rail_rep() is %s to solve(): the report is then computed for other conditions than asked" % (p, "not forwarded" if v is None else "forwarded as " + ast.unparse(v)),
                               "forward " + p)
-        else:
-            ok = False
-            rep.violation("R0", "system.System.rail_rep", where, "rail_rep() lacks solve()'s option '%s'" % p, "missing option " + p)
+        # an option solve() has and rail_rep() does not offer is solved with solve()'s default: nothing is mis-reported (a display option
+        # added to solve() alone is an ordinary feature commit)
     rep.instance("R0", "system.System.rail_rep forwards its options to solve()", "%s:%d" % (rel, call.lineno), ok, ", ".join(sparams))
     # ---- read the rest
     rd = Reader(frame)
@@ -154,6 +163,8 @@ def r_all(model, rep):
         line = apps[0][2] if apps else fn.lineno
         if not ok:
             got = show(apps[0][1]) if apps else "nothing"
+            if apps and unread_selection(apps[0][1], frame):
+                raise AnalysisError("rail_rep: '%s' is taken from a selection of the table the reader cannot follow (%s)" % (h, got[:120]))
             rep.violation("R1", "system.System.rail_rep", "%s:%d" % (rel, line), "'%s' of a rail is %s, expected %s(%s) over the rows whose Rail in is that rail%s" % (
                 h, got, red, col, " in that phase"), "%s = %s" % (h, got))
         rep.instance("R1", "system.System.rail_rep cell %s" % h, "%s:%d" % (rel, line), ok)
